@@ -185,11 +185,20 @@ def check_equivalence(case):
 
 # ---- unit 4: key files ------------------------------------------------------------------------------------------
 
+KEYFILE_NAMES = ["k", "k", "signer.2024", "a.b.c", "name.pri", "key.pub", ".hidden", "k.", "with space", "caf\u00e9.v2", "UPPER.TXT"]
+
+
 def check_keyfiles(case):
     d = tempfile.mkdtemp(prefix="c19-")
     try:
+        base = KEYFILE_NAMES[case.get("name", 0) % len(KEYFILE_NAMES)]
         if case["how"] == "library":
-            name = os.path.join(d, "k")
+            name = os.path.join(d, base)
+            # a neighbour whose name differs only after the last dot (signer.2024 / signer.2025, k.old / k.new) exists already
+            sib = None
+            if "." in base.strip("."):
+                sib = os.path.join(d, base.rsplit(".", 1)[0] + ".other")
+                sib_priv, sib_pub = MC.gen_and_write_keys(sib)
             pre = case.get("pre", 0) % 4
             if pre:       # key files from an earlier run already exist under that name (longer, shorter or same size)
                 for ext, n in ((".pri", [0, 65, 20, 32][pre]), (".pub", [0, 33, 64, 32][pre])):
@@ -209,12 +218,16 @@ def check_keyfiles(case):
             C.checkformat_key(pub)
             return {"nontrivial": True, "labels": ["gen_keys"]}
         else:
+            sib = None
             seed = case["seed"]
-            name = os.path.join(d, "k")
+            name = os.path.join(d, base)
             with open(name + ".pri", "wb") as f:
                 f.write(seed)
             with open(name + ".pub", "wb") as f:
                 f.write(R4.public_key(seed))
+        if not (os.path.isfile(name + ".pri") and os.path.isfile(name + ".pub")):
+            raise Violation("key pair %r: no files %r / %r after writing; the directory holds %r"
+                            % (base, base + ".pri", base + ".pub", sorted(os.listdir(d))), bucket="key file names")
         if open(name + ".pri", "rb").read() != seed or open(name + ".pub", "rb").read() != R4.public_key(seed):
             raise Violation("key files do not hold the raw 32-byte private / RFC 8032 public key", bucket="key file content")
         pb, ub = _lib(C.keyfiles_to_bytes, name)
@@ -227,6 +240,15 @@ def check_keyfiles(case):
             raise Violation("keys loaded from key files are not equivalent to the keys written", bucket="keyfile round trip")
         if lp.sign(b"x") != R4.sign(seed, b"x"):
             raise Violation("key loaded from file signs differently", bucket="keyfile round trip")
+        if sib is not None:
+            sp, su = _lib(C.keyfiles_to_keys, sib)
+            if C.PrivateKey.to_bytes(sp) != C.PrivateKey.to_bytes(sib_priv) or C.PublicKey.to_bytes(su) != C.PublicKey.to_bytes(sib_pub):
+                raise Violation("writing the key pair %r changed what loads back for the key pair %r written before"
+                                % (base, os.path.basename(sib)), bucket="keyfile round trip")
+        want_files = {base + ".pri", base + ".pub"} | ({os.path.basename(sib) + ".pri", os.path.basename(sib) + ".pub"} if sib else set())
+        if set(os.listdir(d)) != want_files:
+            raise Violation("key files for %r: the directory holds %r, expected %r" % (base, sorted(os.listdir(d)), sorted(want_files)),
+                            bucket="key file names")
     finally:
         shutil.rmtree(d, ignore_errors=True)
     return {"nontrivial": True, "labels": [case["how"]]}
@@ -387,7 +409,7 @@ UNITS = [
         {"s1": seeds, "s2": st.one_of(seeds, st.sampled_from(SPECIAL_SEEDS)), "bit": st.integers(0, 255)}), quick=600, thorough=20000,
         essential=["same-seed", "different-seeds"], doc="reflexive, symmetric, false across seeds and across kinds"),
     Unit("keyfiles", check_keyfiles, strategy=lambda: st.fixed_dictionaries(
-        {"how": st.sampled_from(["library", "library", "hand", "gen_keys"]), "seed": seeds, "pre": st.integers(0, 3)}), quick=300, thorough=5000,
+        {"how": st.sampled_from(["library", "library", "hand", "gen_keys"]), "seed": seeds, "pre": st.integers(0, 3), "name": st.integers(0, 10)}), quick=300, thorough=5000,
         doc="key files written by the library / by hand load back as equivalent keys"),
     Unit("malformed", check_malformed, strategy=_malformed, quick=1500, thorough=40000,
          doc="malformed key encodings are rejected with TypeError/ValueError by from_bytes/from_hex"),
